@@ -243,13 +243,13 @@ def Mbc5.read (m : Mbc5) (addr : Nat) : Option Nat :=
 def Mbc5.write (m : Mbc5) (addr v : Nat) : Option Mbc5 :=
   if addr < 0x2000 then some { m with ramEnabled := enableBit v }
   else if addr < 0x3000 then
-    -- m.romBank = m.romBank&0xff00 + uint16(value); m.romBank %= uint16(len(m.rom))
-    (mod? (((m.romBank &&& 0xff00) + v) % 65536) (m.romLen % 65536)).bind fun b =>
-      some { m with romBank := b }
+    -- m.romBank = m.romBank&0xff00 + uint16(value); m.romBank = uint16(int(m.romBank) % len(m.rom))
+    (mod? (((m.romBank &&& 0xff00) + v) % 65536) m.romLen).bind fun b =>
+      some { m with romBank := b % 65536 }
   else if addr < 0x4000 then
-    -- m.romBank = uint16(value)<<8 + m.romBank&0x00ff; m.romBank %= uint16(len(m.rom))
-    (mod? ((((v <<< 8) % 65536) + (m.romBank &&& 0x00ff)) % 65536) (m.romLen % 65536)).bind fun b =>
-      some { m with romBank := b }
+    -- m.romBank = uint16(value)<<8 + m.romBank&0x00ff; m.romBank = uint16(int(m.romBank) % len(m.rom))
+    (mod? ((((v <<< 8) % 65536) + (m.romBank &&& 0x00ff)) % 65536) m.romLen).bind fun b =>
+      some { m with romBank := b % 65536 }
   else if addr < 0x6000 then
     (mod? (v &&& 0x0f) (m.ramLen % 256)).bind fun b => some { m with ramBank := b }
   else if addr < 0xa000 then some m
